@@ -111,6 +111,15 @@ pub struct SecondaryStorage {
     ddl_lock: Mutex<()>,
 }
 
+#[cfg(risinglight_verif)]
+impl SecondaryStorage {
+    /// Simulated cache pressure: forget every cached block, so that the next read of each
+    /// block goes to its file again (eviction by the cache itself is driven by a real clock).
+    pub fn verif_evict_block_cache(&self) {
+        self.block_cache.invalidate_all();
+    }
+}
+
 impl SecondaryStorage {
     pub async fn open(options: StorageOptions) -> StorageResult<Self> {
         Self::bootstrap(options).await
